@@ -48,6 +48,10 @@ pub struct ModelRouteCase {
     /// after `backward`, the gradient of the first parameter of this layer is removed through a clone handle before the update
     pub drop_first_gradient_of: Option<usize>,
     pub oracle: String,
+    /// a forward pass on another input BEFORE the layers are frozen (a layer that caches something about its
+    /// parameters at first use must notice the flag change)
+    #[serde(default)]
+    pub warm_up: bool,
 }
 
 type G = Option<(Vec<usize>, Vec<u64>)>;
@@ -74,6 +78,15 @@ impl ModelRouteCase {
     fn route(&self, via_model: bool) -> Result<Snap, String> {
         let acts = acts_for(&self.specs);
         let mut layers = build_layers(&self.specs, &acts, self.pseed, VKind::Small, None);
+        if self.warm_up {
+            let xd = input_dims(&self.specs, self.batch, self.rows, self.cols);
+            let n: usize = xd.iter().product();
+            let mut cur = arr(&xd, &gen_vals(self.xseed ^ 0x3A3A, n, VKind::Small));
+            for l in layers.iter() {
+                cur = l.forward(cur);
+            }
+            drop(cur);
+        }
         for (i, l) in layers.iter_mut().enumerate() {
             if self.freeze_parity < 2 && i % 2 == self.freeze_parity as usize {
                 for p in l.parameters() {
@@ -142,9 +155,19 @@ impl ModelRouteCase {
             let m = model_holder.take().unwrap();
             drop(m);
         }
-        for l in layers.iter_mut() {
-            for p in l.parameters() {
-                snap.param_grads.push(grad_of(p));
+        for (i, l) in layers.iter_mut().enumerate() {
+            let frozen = self.freeze_parity < 2 && i % 2 == self.freeze_parity as usize;
+            for (pi, p) in l.parameters().into_iter().enumerate() {
+                let g = grad_of(p);
+                // a parameter whose tracking was off when the layer used it receives nothing; one that was tracked and
+                // feeds the output receives its gradient
+                if frozen && g.is_some() {
+                    return Err(format!("FLAGS: parameter {} of layer {} had tracking switched off before the forward pass but holds a gradient after the backward pass (route: {})", pi, i, if via_model { "Model" } else { "by hand" }));
+                }
+                if !frozen && g.is_none() {
+                    return Err(format!("FLAGS: parameter {} of layer {} was tracked when the layer used it but holds no gradient after the backward pass (route: {})", pi, i, if via_model { "Model" } else { "by hand" }));
+                }
+                snap.param_grads.push(g);
             }
         }
         if let Some(li) = self.drop_first_gradient_of {
@@ -183,7 +206,7 @@ impl CaseKind for ModelRouteCase {
     }
     fn run(&self) -> Outcome {
         let mut k = KeyHasher::new("model-route");
-        k.s(&format!("{:?}{:?}", self.specs, self.cost)).u(self.batch as u64).b(self.track_input).b(self.track_target).u(self.target_kind as u64).u(self.freeze_parity as u64).u((self.lr * 64.0) as i64 as u64).u(self.drop_first_gradient_of.map_or(99, |x| x as u64));
+        k.s(&format!("{:?}{:?}", self.specs, self.cost)).u(self.batch as u64).b(self.track_input).b(self.track_target).u(self.target_kind as u64).u(self.freeze_parity as u64).u((self.lr * 64.0) as i64 as u64).u(self.drop_first_gradient_of.map_or(99, |x| x as u64)).b(self.warm_up);
         let classes = vec![format!("input:{}", if self.track_input { "tracked" } else { "plain" }), format!("target:{}", ["fresh", "the-input", "teacher-output"][self.target_kind as usize % 3]), format!("layers:{}", self.specs.len())];
         let a = guarded(|| self.route(false));
         let b = guarded(|| self.route(true));
@@ -214,6 +237,7 @@ impl CaseKind for ModelRouteCase {
                 };
                 Outcome::fail(what.0, format!("{}:{}", what.0, self.oracle), format!("{} ({:?})", what.1, self), k.finish(), classes)
             }
+            (Ok(Err(e)), _) | (_, Ok(Err(e))) if e.starts_with("FLAGS") => Outcome::fail("parameter-flags", format!("parameter-flags:{}", self.oracle), format!("{} ({:?})", e, self), k.finish(), classes),
             (Ok(Ok(_)), Ok(Err(e))) | (Ok(Ok(_)), Err(e)) => Outcome::fail("model-route-panics", format!("model-route-panics:{}", self.oracle), format!("the computation runs by hand but fails through Model: {} ({:?})", e, self), k.finish(), classes),
             (Ok(Err(e)), _) | (Err(e), _) => Outcome::discard(&format!("the by-hand route does not run: {}", e)),
         }
@@ -253,6 +277,7 @@ pub fn route_cases(oracle: &str, seed: u64, thorough: bool) -> Vec<ModelRouteCas
                             lr: [0.5, 0.0, -0.25, 1.0][(i % 4) as usize],
                             drop_first_gradient_of: if (i / 4) % 3 == 0 { Some((si + i as usize) % specs.len()) } else { None },
                             oracle: oracle.to_string(),
+                            warm_up: (i / 2) % 2 == 1,
                         });
                     }
                 }
